@@ -130,6 +130,7 @@ func appendBases(v ssa.Value, seen map[ssa.Value]bool, out *[]ssa.Value) {
 }
 
 func runC21(c *Ctx) {
+	runC21Extra(c)
 	const pk = "common/containerdb"
 	// ------------------------------------------------------ framing tables
 	var selfHi, shortMax, shortOff, longOff int64 = -1, -1, -1, -1
@@ -634,4 +635,93 @@ func runC21(c *Ctx) {
 			c.violate("C21.dict-depth", "DictDB.GetDB structure", gd.Pos(), "expected one key construction")
 		}
 	}
+}
+
+// runC21Extra: the length frame is complete and canonical on both sides — the
+// writer's byte count for a length runs until nothing is left, the reader's
+// smallest long-form length is one above the writer's largest short-form
+// length, and big-integer key parts take the signed byte form.
+func runC21Extra(c *Ctx) {
+	const pkg = "common/containerdb"
+	if f := c.mustFn(pkg, "", "rlpCountBytesForSize"); f != nil {
+		okCnt := false
+		desc := "loop not recognised"
+		for _, b := range f.Blocks {
+			iff, ok := b.Instrs[len(b.Instrs)-1].(*ssa.If)
+			if !ok || loopHeaderOf(b) != b {
+				continue
+			}
+			var rest *ssa.Phi
+			for _, in := range b.Instrs {
+				if p, ok := in.(*ssa.Phi); ok && p.Comment == "b" {
+					rest = p
+				}
+			}
+			if rest == nil {
+				continue
+			}
+			// the exit edge establishes rest ≤ 0; each round shifts 8 bits and counts one
+			var exit *ssa.BasicBlock
+			body := loopBody(b)
+			for _, s := range b.Succs {
+				if !body[s] {
+					exit = s
+				}
+			}
+			if exit == nil {
+				continue
+			}
+			_, hi, _, hasHi := boundsOn(guardsOnEdge(b, exit), render(rest))
+			shifts := true
+			for _, e := range rest.Edges {
+				bo, ok := e.(*ssa.BinOp)
+				k := int64(0)
+				if ok {
+					k, _ = constInt(bo.Y)
+				}
+				if !ok || bo.Op != token.SHR || k != 8 {
+					shifts = false
+				}
+			}
+			desc = fmt.Sprintf("ends at rest ≤ %d (known=%v), 8-bit steps=%v, cond %s", hi, hasHi, shifts, render(iff.Cond))
+			okCnt = hasHi && hi == 0 && shifts
+		}
+		c.check(okCnt, "C21.framing-tables", "the length field has one byte for every non-zero byte of the length", f.Pos(), desc, "the byte count of a length "+desc+": lengths ≥ 256 get a truncated length field and distinct key tuples collide")
+	}
+	enc, rd := c.mustFn(pkg, "", "rlpEncodeBytes"), c.mustFn(pkg, "", "rlpReadSize")
+	if enc != nil && rd != nil {
+		var shortHi int64 = -1
+		for _, b := range enc.Blocks {
+			_, hi, _, hasHi := boundsOn(guardsAtBlock(b), "len($0)")
+			if hasHi && hi > 1 && (shortHi < 0 || hi < shortHi) {
+				shortHi = hi
+			}
+		}
+		var longLo int64 = -1
+		for _, e := range successAlts(rd) {
+			for _, g := range e.Guards {
+				p := predOf(g)
+				if p.Kind != "ge" || len(p.L.T) != 1 {
+					continue
+				}
+				for a, co := range p.L.T {
+					if co == 1 && strings.HasPrefix(a, "phi(") && -p.L.K > longLo && -p.L.K < 1<<31 {
+						longLo = -p.L.K
+					}
+				}
+			}
+		}
+		c.check(shortHi > 0 && longLo == shortHi+1, "C21.framing-tables", "reader's smallest long-form length = writer's largest short-form length + 1", rd.Pos(), fmt.Sprintf("short ≤ %d, long ≥ %d", shortHi, longLo), fmt.Sprintf("the writer uses the short form up to %d bytes, the reader accepts long-form lengths from %d: a part of a length in between is written but cannot be read back (or has two encodings)", shortHi, longLo))
+	}
+	nBig := 0
+	for _, f := range c.pkgFuncs(pkg) {
+		if strings.HasSuffix(c.file(f.Pos()), "_test.go") {
+			continue
+		}
+		for _, cs := range c.calls(f, byCallee("(*math/big.Int).Bytes", "(*math/big.Int).SetBytes")) {
+			c.violate("C21.framing-tables", "big-integer key parts use the signed byte form", cs.Pos(), fnName(f)+" calls "+calleeName(cs.Common())+": n and −n (and 0 and the empty key) map to the same storage key")
+		}
+		nBig += len(c.calls(f, byCallee("common/intconv.BigIntToBytes")))
+	}
+	c.check(nBig >= 1, "C21.framing-tables", "ToBytes converts *big.Int with intconv.BigIntToBytes", token.NoPos, fmt.Sprintf("%d uses", nBig), "no use of intconv.BigIntToBytes left in containerdb")
 }
